@@ -287,4 +287,7 @@ def run(tier):
     chk.floor('rule instances', len(chk.obls), 40)
     from .. import lints
     lints.length_is_boolean(chk, ['src/ssl/ssl_rec', 'src/ssl/ssl_engine'])
+    # ChaCha20-Poly1305 records: every ciphertext bit must enter the authenticator at its own weight (shared with C12)
+    from .c12 import poly1305_block_decoding
+    poly1305_block_decoding(chk)
     return chk.finish()
